@@ -277,18 +277,88 @@ def shift_task(jobsets, i, A):
 
 
 
+def parse_cost_any(t, i):
+    if t[i] == "sc":
+        return ("sc", int(t[i + 1])), i + 2
+    if t[i] == "mf":
+        v, i2 = _p_list(t, i + 1)
+        return ("mf", v), i2
+    if t[i] == "cbox":
+        return parse_cost_any(t, i + 1)
+    raise Unsupported(t[i])
+
+
+def parse_fifo_op(op):
+    """tasks [(arrival model, cost model)] of a `fifo` operation line (scalar / multiframe costs)"""
+    t = op.split()
+    if t[0] != "fifo":
+        raise Unsupported(t[0])
+
+    def rb(i):
+        k = t[i]
+        if k == "rbf":
+            a, i2 = parse_arr(t, i + 1)
+            c, i3 = parse_cost_any(t, i2)
+            return [(a, c)], i3
+        if k in ("ragg", "rsli"):
+            n = int(t[i + 1])
+            out, i2 = [], i + 2
+            for _ in range(n):
+                x, i2 = rb(i2)
+                out += x
+            return out, i2
+        if k == "rbox":
+            return rb(i + 1)
+        raise Unsupported(k)
+    tasks, _ = rb(1)
+    return tasks
+
+
+def fifo_search(tasks, op, r, rng, reps, cex, nontrivial):
+    """simulate dense admissible release sequences of the task set under FIFO and compare every
+    response time with the real bound; returns the worst observed response"""
+    R = int(r.split()[1])
+    worst = 0
+    for rep in range(reps):
+        mode = "wcet" if rep % 4 < 3 else "random"
+        jobsets = [sim.task_jobs(a, c, rng.randint(2, 10), rng, mode) for a, c in tasks]
+        if rep % 2 == 0:
+            jobsets = sync(jobsets)
+        jobs = [{"rel": rl, "cost": c, "np": set(), "task": ti} for ti, js in enumerate(jobsets) for rl, c in js]
+        if not jobs:
+            continue
+        rts = sim.simulate(jobs, lambda j: j["rel"], rng)
+        nontrivial.add((op, rep, len(jobs)))
+        for j, rt in zip(jobs, rts):
+            if rt is None or rt > R:
+                cex.append({"kind": "fifo_bound_exceeded", "op": op, "impl": r, "observed_response": rt,
+                            "job": j["rel"], "jobs": [(x["rel"], x["cost"], x["task"]) for x in jobs],
+                            "multiframe_not_accumulatively_monotonic": any_bad_mf([c for _, c in tasks])})
+                return max(worst, rt or 0)
+            worst = max(worst, rt)
+    return worst
+
+
 def falsify_C03(ctx):
     rng = random.Random(ctx["seed"] * 7919 + 3)
     n = 300 if ctx["tier"] == "quick" else 20000
     cex, samples, nontrivial = [], [], set()
     cases = 0
     attained = 0
+    guided = 0
     for i in range(n):
         k = wchoice(rng, [(1, 1), (3, 2), (3, 3), (1, 4)])
         tasks = []
         for _ in range(k):
             a = sample_arr(rng)
-            c = ("sc", rng.randint(1, 6)) if rng.random() < 0.85 else ("mf", [rng.randint(1, 5) for _ in range(rng.randint(1, 3))])
+            u = rng.random()
+            if u < 0.8:
+                c = ("sc", rng.randint(1, 6))
+            elif u < 0.9:
+                c = ("mf", [rng.randint(1, 5) for _ in range(rng.randint(1, 3))])
+            else:
+                # accumulatively monotonic multiframe vector with empty (zero-cost) frames
+                c = ("mf", [rng.randint(3, 15)] + [rng.choice([0, 0, 1]) for _ in range(rng.randint(1, 2))])
             tasks.append((a, c))
         rb = ("ragg", [("rbf", a, c) for a, c in tasks])
         op = f"fifo {gen.rb_str(rb)} 2000"
@@ -297,31 +367,41 @@ def falsify_C03(ctx):
         if not r.startswith("ok "):
             continue
         R = int(r.split()[1])
-        worst = 0
-        for rep in range(4):
-            mode = "wcet" if rep < 3 else "random"
-            jobsets = [sim.task_jobs(a, c, rng.randint(2, 10), rng, mode) for a, c in tasks]
-            if rep % 2 == 0:
-                jobsets = sync(jobsets)
-            jobs = [{"rel": rl, "cost": c, "np": set(), "task": ti} for ti, js in enumerate(jobsets) for rl, c in js]
-            if not jobs:
-                continue
-            rts = sim.simulate(jobs, lambda j: j["rel"], rng)
-            nontrivial.add((op, rep, len(jobs)))
-            for j, rt in zip(jobs, rts):
-                if rt is None or rt > R:
-                    cex.append({"kind": "fifo_bound_exceeded", "op": op, "impl": r, "observed_response": rt,
-                                "job": j["rel"], "jobs": [(x["rel"], x["cost"], x["task"]) for x in jobs],
-                                "multiframe_not_accumulatively_monotonic": any_bad_mf([c for _, c in tasks])})
-                    break
-                worst = max(worst, rt)
+        reps = 4
+        mres = model([op])[0]
+        if mres.startswith("ok ") and int(mres.split()[1]) > R:
+            # the model (proved safe) claims a larger bound than the real code: intensify
+            guided += 1
+            reps = 200
+        worst = fifo_search(tasks, op, r, rng, reps, cex, nontrivial)
         if worst == R and R > 0:
             attained += 1
         if len(samples) < 3 and worst > 0 and k >= 2:
             samples.append({"op": op, "bound": R, "worst_simulated_response": worst})
+    # correspondence-guided: disagreeing fifo operations on which the real code claims less than the model
+    ng = 0
+    for d in ((ctx.get("corr") or {}).get("disagreements") or []):
+        op, ri, rm = d.get("op", ""), d.get("impl", ""), d.get("model", "")
+        if not op.startswith("fifo ") or not ri.startswith("ok "):
+            continue
+        if rm.startswith("ok ") and int(rm.split()[1]) <= int(ri.split()[1]):
+            continue
+        try:
+            tasks = parse_fifo_op(op)
+        except (Unsupported, ValueError, IndexError):
+            continue
+        ng += 1
+        if ng > 40:
+            break
+        before = len(cex)
+        fifo_search(tasks, op, ri, rng, 200, cex, nontrivial)
+        if len(cex) > before:
+            cex[-1]["found_by"] = "search guided by a correspondence disagreement (model: %s)" % rm
     return {"cases": cases, "nontrivial": len(nontrivial),
-            "rule": "random task sets (sporadic with jitter, periodic, bursty curves, nested/propagated models; scalar and multiframe costs) x dense admissible release sequences (synchronous and phased) x WCET and random execution times x random tie-breaks, simulated under FIFO (executable rendering of RTA/Spec/Sched.lean) and compared with the real bound; non-trivial = distinct (system, scenario)",
-            "counterexamples": cex, "samples": samples, "distribution": {"systems_with_bound": cases, "bound_attained_by_some_schedule": attained}}
+            "rule": "random task sets (sporadic with jitter, periodic, bursty curves, nested/propagated models; scalar and multiframe costs incl. empty frames) x dense admissible release sequences (synchronous and phased) x WCET and random execution times x random tie-breaks, simulated under FIFO (executable rendering of RTA/Spec/Sched.lean) and compared with the real bound; intensified (200 scenarios) where the real bound is below the model's, and on the fifo operations on which the correspondence disagrees; non-trivial = distinct (system, scenario)",
+            "counterexamples": cex, "samples": samples,
+            "distribution": {"systems_with_bound": cases, "bound_attained_by_some_schedule": attained,
+                             "model_guided_searches": guided, "correspondence_guided_searches": ng}}
 
 
 def gen_sched_system(rng, policy):
